@@ -761,6 +761,9 @@ func (v *Int) clone() *Int {
 }
 
 func (v *Int) String() string {
+	if v == nil {
+		return "<none>"
+	}
 	var sb strings.Builder
 	if c, ok := v.Const(); ok && v.allBitsConst() {
 		fmt.Fprintf(&sb, "%#x", c)
@@ -803,7 +806,12 @@ func (b *Bool) Const() (bool, bool) {
 	return false, false
 }
 
-func (b *Bool) String() string { return "bool(" + b.B.String() + ")" }
+func (b *Bool) String() string {
+	if b == nil {
+		return "<none>"
+	}
+	return "bool(" + b.B.String() + ")"
+}
 
 // ValueString renders any value for diagnostics.
 func ValueString(v Value) string {
@@ -845,6 +853,9 @@ func ValueString(v Value) string {
 		}
 		return "str(?)"
 	case *Float:
+		if x == nil {
+			return "<none>"
+		}
 		return fmt.Sprintf("float[%g,%g]", x.Lo, x.Hi)
 	case *Top:
 		return fmt.Sprintf("top(%v)", x.T)
